@@ -74,6 +74,26 @@ def _machine(cfg: HistoryProperty, res: ShardResult, max_rules: int):
             for _ in range(n):
                 self._do(["step"])
 
+        if cfg.instr_bias.get("meddle"):
+
+            # a clumsy controller: an instruction that HIVE has to refuse (charge / park at a place the vehicle is not at, a
+            # target that does not exist) addressed to a vehicle that is on its way to a request, then time passes
+            @rule(gen=st.integers(0, 2), kind=st.sampled_from([3, 4, 6, 3, 4, 6, 1]), vsel=st.integers(0, 9), tclass=st.sampled_from([2, 2, 6]), tsel=st.integers(0, 9),
+                  csel=st.integers(0, 31), n=st.integers(1, 3))
+            def meddle(self, gen, kind, vsel, tclass, tsel, csel, n):
+                self._do(["instr", gen, kind, 9, vsel, tclass, tsel, csel])
+                for _ in range(n):
+                    self._do(["step"])
+
+        if cfg.instr_bias.get("raw"):
+
+            @rule(mode=st.integers(0, 1), gen=st.integers(0, 2), rkind=st.sampled_from(cfg.instr_bias.get("raw_kinds") or [0, 0, 1, 2, 3, 4, 5]), vclass=st.sampled_from([0, 1, 2, 9, 9, 9, 4, 6]),
+                  vsel=st.integers(0, 9), tclass=st.sampled_from([0, 1, 2, 2, 5]), tsel=st.integers(0, 9), csel=st.integers(0, 31), rsel=st.integers(0, 14))
+            def raw(self, mode, gen, rkind, vclass, vsel, tclass, tsel, csel, rsel):
+                self._do(["raw", mode, gen, rkind, vclass, vsel, tclass, tsel, csel, rsel])
+                if mode % 2 == 0:
+                    self._do(["step"])
+
         if cfg.instr_bias.get("rush"):
 
             @rule(tsel=st.integers(0, 3), csel=st.integers(0, 3), k=st.integers(2, 8))
